@@ -43,6 +43,7 @@ struct Win {
 	uint32_t phaseEnd = 0;               // index one past the last event of the phase part (update/react)
 	PlanStep plan;
 	bool leftoverFromLimit = false;      // this window's round 1 evaluates a request left over by the limit
+	TrV lostRequest;                     // a guard request that was neither evaluated, nor left outstanding, nor a redundant redirect
 };
 
 struct Ann {   // per event annotation
@@ -174,14 +175,21 @@ inline bool subseqDiff(const std::vector<TaskV>& x, const std::vector<TaskV>& y,
 }
 
 // what is left outstanding once the guard rounds of a window are over
-inline void settle(InstTrack& S, const Win& w, const Info& f) {
+inline void settle(InstTrack& S, Win& w, const Info& f) {
 	const size_t limit = f.L;
 	size_t evals = w.rounds.size();
 	if (w.activation && evals > 0) evals -= 1;   // the initial evaluation is not a substitution
 	if (S.out.valid) {
-		if (evals >= limit) { S.leftover = true; S.outKnown = false; }   // limit reached: the request stays outstanding -- or was silently dropped as a duplicate of the
-		                                                                   // accepted transition; not decidable from outside, so re-synchronise from control.request()
-		else { S.out = TrV{}; S.outKnown = true; }                       // dropped as a duplicate of the accepted transition
+		if (evals >= limit) { S.leftover = true; S.outKnown = false; }   // limit reached: the request stays outstanding -- or was silently dropped as redundant;
+		                                                                   // not decidable from outside, so re-synchronise from control.request()
+		else {
+			// below the limit every guard request gets its own round, except the redundant redirect: a request for the destination
+			// that has already been accepted on behalf of an external, payload-free request changes nothing and may be skipped
+			const TrV* acc = w.survivor >= 0 ? &w.rounds[w.survivor].pend : nullptr;
+			const bool redundant = acc && acc->valid && acc->dest == S.out.dest && acc->origin == NOID && !acc->hasPay;
+			if (!redundant) w.lostRequest = S.out;
+			S.out = TrV{}; S.outKnown = true;
+		}
 	}
 }
 
